@@ -347,9 +347,16 @@ func instrumentFile(p *packages.Package, f *ast.File, fe *fileEdits) {
 				fe.add(fset, x.Pos(), x.End(), txt)
 				return false
 			}
-			// R8: singleflight Do
-			if full == "(*golang.org/x/sync/singleflight.Group).Do" {
-				insertAfter(x, "R8")
+			// R8: singleflight Do / DoChan. The shared function is wrapped so that, when the library
+			// runs it on a goroutine of its own (DoChan), that goroutine becomes a scheduler task.
+			if full == "(*golang.org/x/sync/singleflight.Group).Do" || full == "(*golang.org/x/sync/singleflight.Group).DoChan" {
+				if len(x.Args) == 2 {
+					fe.add(fset, x.Args[1].Pos(), x.Args[1].Pos(), fmt.Sprintf("zzsim.AdoptFunc(%q, ", site(p, x.Pos(), "R8")))
+					fe.add(fset, x.Args[1].End(), x.Args[1].End(), ")")
+				}
+				if strings.HasSuffix(full, ".Do") {
+					insertAfter(x, "R8")
+				}
 				return true
 			}
 			// R6: atomics and config props (call sites only: the wrappers in
